@@ -8,7 +8,7 @@ from vlib import shim as shimmod
 
 LEVEL = "exploration"
 RULE = ("generated: n in 8..128, extents [-L+s, L+s] per axis, nb in 1..5 with filling patterns containing zeros; norm: "
-        "arbitrary non-negative data, non-trivial = unequal shares or nb==1 with total != 1; moments: mixtures of 1-3 "
+        "arbitrary non-negative data (one case in three: total charge already 1, 1 +- few ulp, 0.5 or 2 but distributed over the bunches differently from the filling pattern), non-trivial = unequal shares or nb==1 with total != 1; moments: mixtures of 1-3 "
         "correlated Gaussians (sigma >= 2 cells, 5 sigma inside the grid), non-trivial = |mean| >= 0.5 on some axis and, for "
         "nb >= 2, bunches differ; isolation: other bunches' data replaced; copy: copy construction after refresh")
 ASSUMPTIONS = ["float64 reference sums are exact to 1e-12"]
@@ -59,13 +59,22 @@ def run_norm(case):
         data *= (r.random((nb, n, n)) < 0.1)
         data[:, n // 2, n // 2] = np.float32(1.0) * scale[:, 0, 0].astype(np.float32)
     fill = filling_of(case).astype(np.float64)
+    if case.get("unit"):
+        # the grid as a whole already carries (to rounding) unit charge, but distributed over the bunches by
+        # 'dshares', not by the filling pattern: normalisation still has to restore every bunch's own share
+        w = gen.simpson_weights(n, 2 * case["L"] / (n - 1))
+        ds = np.array(case["dshares"], np.float64)
+        ds = ds / ds.sum() * case.get("total", 1.0)
+        for b in range(nb):
+            popb = float(w @ data[b].astype(np.float64) @ w)
+            data[b] = (data[b].astype(np.float64) * (ds[b] / popb)).astype(np.float32)
     h = make_ps(s, case, data)
     for op in ("updateX", "integrateAndNormalize", "updateX", "integrate"):
         s.ps_op(h, op)
     pop = s.ps_get(h, "filling").astype(np.float64)
     integ = float(s.ps_get(h, "integral")[0])
     d1 = s.ps_data(h).copy()
-    cls = ["nb%d" % min(nb, 3), "haszero" if (fill == 0).any() else "nozero"]
+    cls = ["nb%d" % min(nb, 3), "haszero" if (fill == 0).any() else "nozero", "unit_total" if case.get("unit") else "raw_total"]
     nontriv = bool(len(set(case["shares"])) > 1 or nb == 1)
     met = {}
     for b in range(nb):
@@ -98,6 +107,10 @@ def run_norm(case):
 def norm_cases(draw):
     c = draw(geometry())
     c["sparse"] = draw(st.booleans())
+    c["unit"] = draw(st.integers(0, 2)) == 0
+    if c["unit"]:
+        c["dshares"] = [draw(st.integers(1, 8)) for _ in range(c["nb"])]
+        c["total"] = draw(st.sampled_from([1.0, 1.0, 1.0 + 3e-7, 1.0 - 3e-7, 1.0 + 1e-5, 0.5, 2.0]))
     return c
 
 
